@@ -18,7 +18,7 @@ emitted pair (the value blocks are produced in loop order while the pairs are so
 bug for every non-square / non-uniform input, whatever the values.  Nothing here decides numerical equality of the product.
 """
 import ast
-from ..core import RuleResult, Finding, AnalysisError, dotted, src, norm_construct
+from ..core import RuleResult, Finding, AnalysisError, dotted, src, norm_construct, guarded, guarded_list
 from .. import paths
 
 OPS = 'pypose.sparse.ops'
@@ -417,6 +417,7 @@ def _dn(d):
             'zA': 'stored blocks of the left operand', 'zB': 'stored blocks of the right operand'}.get(d, str(d))
 
 
+@guarded
 def rule_idx(repo, tier):
     res = RuleResult('C10.IDX', 'block CSR x block CSC merge-join: every pointer/index array is subscripted by an index of its own domain, indices '
                      'are compared within one domain, row extents are [ptr[i], ptr[i+1]), block edges and declared sizes agree', floor=20)
@@ -547,6 +548,7 @@ def _order_clause(ty, res, f):
 
 # ---------------------------------------------------------------------------------------------------------------- dispatcher
 
+@guarded
 def rule_dispatch(repo, tier):
     """_sparse_csr_mm(mat1, mat2) = mat1 @ mat2 for every layout pair: every delegation keeps the operand order, addmm is called with
     alpha = 1 and beta = 0 on (zero, mat1', mat2'), the helper for the block pair is called under guards that match its own layout asserts"""
